@@ -334,7 +334,9 @@ def f_zone_inverted(rng, d):
 
 def f_zone_outside_global(rng, d):
     zs = [z for z in _zones(d) if z['name'] != 'GLOBAL']
-    d['predefined']['memory_zones'] = zs + [{'name': 'GLOBAL', 'start': 0, 'end': 0x7FFF}, {'name': 'hi', 'start': 0x7000, 'end': 0x8000}]
+    new = [{'name': 'GLOBAL', 'start': 0, 'end': 0x7FFF}, {'name': 'hi', 'start': 0x7000, 'end': 0x8000}]
+    rng.shuffle(new)                      # the zone outside GLOBAL may be listed before or after it
+    d['predefined']['memory_zones'] = (zs + new) if rng.random() < 0.5 else (new + zs)
     d['general']['origin'] = min(d['general'].get('origin', 0), 0x100)
     for oc in walk_operand_configs(d):
         pass
@@ -498,6 +500,16 @@ OPS = {'>=': 'RGe', '<=': 'RLe', '>': 'RGt', '<': 'RLt', '==': 'REq'}
 def gen_require_cases(rng, tier):
     n = 120 if tier == 'quick' else 1500
     out = []
+    doc0 = lambda name, v: {'general': {'address_size': 16, 'endian': 'big', 'registers': ['a'], 'identifier': {'name': name, 'version': v}},
+                            'operand_sets': {'s': {'operand_values': {'n': {'type': 'numeric', 'argument': {'size': 8, 'byte_align': True}}}}},
+                            'instructions': {'nop': {'bytecode': {'value': 0, 'size': 8}}}}
+    # a pre-release sorts before its release: both ways round, every operator
+    for base in ('2.0.0', '0.10.0', '1.2'):
+        for pre in ('rc1', 'b2', 'a10'):
+            for op in OPS:
+                for isa_v, req_v in ((base + pre, base), (base, base + pre), (base + pre, base + 'rc2')):
+                    out.append({'doc': doc0('verif-gen', isa_v), 'source': f'#require "verif-gen {op} {req_v}"\n.byte 1\n', 'isa_name': 'verif-gen',
+                                'isa_version': isa_v, 'req_name': 'verif-gen', 'op': op, 'req_version': req_v, 'cli': False})
     for _ in range(n):
         name = rng.choice(['verif-gen', 'cpu_x', 'my.isa', 'Z80', 'a'])
         isa_v = gen_version(rng)
